@@ -95,7 +95,7 @@ func rootMutation(cs Case) bool {
 }
 
 // inspect applies the three rules to the system calls of one case.
-func inspect(lines []string, sb *sandbox, cs Case) (out []violation, judged, unresolved int) {
+func inspect(lines []string, sb *sandbox, cs Case, cwd string) (out []violation, judged, unresolved int) {
 	parent := path.Dir(sb.root)
 	for _, ln := range lines {
 		// collect candidate paths: quoted strings resolved against the
@@ -129,6 +129,11 @@ func inspect(lines []string, sb *sandbox, cs Case) (out []violation, judged, unr
 			case p == parent && !mut && rootMutation(cs) && strings.Contains(ln, "O_RDONLY"):
 				// os.RemoveAll/Rename of the root itself opens its parent read-only
 				continue
+			case cwd != "" && p == path.Clean(cwd) && !mut && statCall(ln):
+				// os.Getwd (behind filepath.Abs of a directory configured
+				// relatively) looks at the process's own working directory;
+				// no request decides that path
+				continue
 			case inside(p, sb.base):
 				out = append(out, violation{"in-sandbox-outside-root", ln, p})
 			case strings.Contains(p, tok):
@@ -149,6 +154,17 @@ func inspect(lines []string, sb *sandbox, cs Case) (out []violation, judged, unr
 		}
 	}
 	return out, judged, unresolved
+}
+
+// statCall reports whether the line is a call that only reads the metadata of
+// the path it names.
+func statCall(line string) bool {
+	for _, c := range []string{"newfstatat(", "fstatat64(", "stat(", "lstat(", "statx(", "getcwd("} {
+		if i := strings.Index(line, c); i >= 0 && i < 24 {
+			return true
+		}
+	}
+	return false
 }
 
 var _ = fwUnused
